@@ -7,7 +7,7 @@
     [Inv] = [InvS] /\ [InvD]. *)
 From Coq Require Import Ascii String List Bool PArith NArith ZArith QArith FMapPositive Permutation.
 From PTBase Require Import Exn PyStr.
-From P Require Import Assoc GeoState GeoEdit GeoEdit2 GeoStep Inv InvNames InvSimple Sets InvCol InvConn InvDel InvRefresh InvRename InvCompound Reach Witness.
+From P Require Import Assoc GeoState GeoEdit GeoEdit2 GeoStep Inv InvNames InvSimple Sets InvCol InvConn InvDel InvRefresh InvRename InvCompound InvSplit InvSplit2 Reach Witness.
 Import ListNotations.
 Open Scope list_scope.
 
@@ -52,8 +52,8 @@ Print Assumptions add_column_preserves.
 Theorem delete_column_preserves : forall g n g', fx_nbr (fx g) = false -> Inv g -> llist g = [] -> delete_column g n = Ok g' -> Inv g'.
 Proof. exact delete_column_inv. Qed.
 Print Assumptions delete_column_preserves.
-Theorem delete_column_keeps_all_but_names : forall g n g', fx_nbr (fx g) = false -> InvS g -> delete_column g n = Ok g' ->
-  InvS g' /\ (S3b g -> S3b g') /\ (S5n g -> S5n g') /\ (llist g = [] -> S6 g -> S6 g').
+Theorem delete_column_keeps_all_but_names : forall g n g', InvS g -> delete_column g n = Ok g' ->
+  InvS g' /\ (fx_nbr (fx g) = false -> S3b g -> S3b g') /\ (S5n g -> S5n g') /\ (llist g = [] -> S6 g -> S6 g').
 Proof. exact delete_column_core. Qed.
 Print Assumptions delete_column_keeps_all_but_names.
 Theorem add_connection_preserves : forall g a b g', Inv g -> conn_args_ok g a b -> conn_derived_ok g a b -> add_connection g a b = Ok g' -> Inv g'.
@@ -86,6 +86,12 @@ Print Assumptions rename_column_preserves.
 Theorem rename_layer_preserves : forall g olds news g', Inv g -> ren_lays_ok g (combine olds news) -> rename_layer g olds news = Ok g' -> Inv g'.
 Proof. exact rename_layer_inv. Qed.
 Print Assumptions rename_layer_preserves.
+(** split_column in the repaired source (proposed_fixes/C10-split-column.diff), provided no neighbour holding the corner
+    that leaves the column also holds the opposite corner; in the source as it stands see split_column_breaks_inv *)
+Theorem split_column_repaired_preserves : forall g colname nodename g', Inv g -> split_pre g colname nodename ->
+  split_column g colname nodename = Ok g' -> Inv g'.
+Proof. exact split_column_inv. Qed.
+Print Assumptions split_column_repaired_preserves.
 Theorem identify_neighbours_preserves : forall g, Inv g -> Inv (identify_neighbours g).
 Proof. exact identify_neighbours_inv. Qed.
 Print Assumptions identify_neighbours_preserves.
@@ -133,10 +139,10 @@ Theorem snap_columns_to_nearest_layers_partial : forall g names g', InvS g -> S3
   InvS g' /\ S3b g' /\ S6 g'.
 Proof. exact InvCompound.snap_columns_to_nearest_layers_partial. Qed.
 Print Assumptions snap_columns_to_nearest_layers_partial.
-Theorem check_fix_object_graph_partial : forall g hm hbad g', fx_nbr (fx g) = false -> InvS g -> conns_ok g hm -> check_fix g hm hbad = Ok g' -> InvS g'.
+Theorem check_fix_object_graph_partial : forall g hm hbad g', InvS g -> conns_ok g hm -> check_fix g hm hbad = Ok g' -> InvS g'.
 Proof. exact check_fix_invS. Qed.
 Print Assumptions check_fix_object_graph_partial.
-Theorem reduce_object_graph_partial : forall g names hm hbad g', fx_nbr (fx g) = false -> InvS g ->
+Theorem reduce_object_graph_partial : forall g names hm hbad g', InvS g ->
   (forall g1, delete_columns g (map (cn g) (filter (fun c => negb (existsb (fun n => match cget g n with Some x => Pos.eqb x c | None => false end) names)) (clist g))) = Ok g1 -> conns_ok g1 hm) ->
   reduce g names hm hbad = Ok g' -> InvS g'.
 Proof. exact reduce_invS. Qed.
@@ -194,6 +200,9 @@ Print Assumptions example_two_columns_consistent.
 Theorem example_built_by_edits : run (empty_geo 0 2 nofix) (ops_flat ++ ops_layers) = Ok g_two.
 Proof. exact g_two_built. Qed.
 Print Assumptions example_built_by_edits.
+Theorem example_repaired_split_keeps_inv : exists g', split_column g_two_fixed na nd = Ok g' /\ Inv g'.
+Proof. exact split_column_repaired_keeps_inv. Qed.
+Print Assumptions example_repaired_split_keeps_inv.
 Theorem example_repaired_rename_keeps_inv : exists g', rename_column g_two_fixed [na] [nz] = Ok g' /\ Inv g'.
 Proof. exact rename_column_repaired_keeps_inv. Qed.
 Print Assumptions example_repaired_rename_keeps_inv.
